@@ -196,8 +196,8 @@ def step (s : St) (ws : List String) : St × String :=
       | _ => (s, "none")
     | none => (s, "none")
   | ["q", "bal", a] => (s, toString (s.node.led.getBal a))
-  | ["q", "bals"] =>
-    (s, joinSp (["u0", "u1", "u2", "u3", "ca1", "ca2", "ca3", "ca4", "adm0", "adm1", "adm2", "adm3"].map
+  | "q" :: "bals" :: extra =>
+    (s, joinSp ((["u0", "u1", "u2", "u3", "ca1", "ca2", "ca3", "ca4", "adm0", "adm1", "adm2", "adm3"] ++ extra).map
       fun a => s!"{a}={s.node.led.getBal a}"))
   | ["q", "dump"] => (s, "-")
   | ["q", "dumpdiff"] => (s, "-")
